@@ -512,6 +512,13 @@ def main():
     for i in range(n_rand):
         sp = random_spec(r, r.choice([3, 3, 4]), n_terms)
         specs.append(('rnd-d%d' % spec_depth(sp), sp))
+    # SCALE: deep chains (hundreds of nested nodes: recursion depth, accumulated intermediate results)
+    for d in ((60, 200) if hlib.QUICK else (60, 200, 400)):
+        for fam in (['ABS', 'SUM'], ['SQRT', 'MUL'], ['COS', 'SUB']):
+            sp = ['T', 0]
+            for k in range(d):
+                sp = ['U', fam[0], sp] if k % 2 == 0 else ['B', fam[1], sp, ['T', 1 + k % 2]]
+            specs.append(('deep-d%d' % d, sp))
     modes = ['special', 'mixed'] if hlib.QUICK else ['special', 'mixed', 'moderate', 'mixed']
     want_coq = 70 if hlib.QUICK else 1500
     pool = []
